@@ -65,6 +65,60 @@ class HoldPolicy(vsched.Policy):
         return default if default != i else others[0]
 
 
+class PriorityPolicy(vsched.Policy):
+    """strict priorities among the user-level threads: `order` lists callers / closer / 'reconnect' (the first reconnect thread,
+    and every further one not listed by its own name) from high to low, every other thread (workers, main) comes before them; a thread runs only while no thread of higher
+    priority can.  `drop = (cls, k)`: the first thread of that class falls behind all others after its k-th quantum — one
+    priority change point.  The class of schedules in which whole activities (a request that connects anew, the end of a
+    connection, a disconnect()) are ordered one after the other, with one thread stopped half way: what a bounded number
+    of preemptions or one held thread does not reach when three or more activities have to be ordered."""
+
+    def __init__(self, order, drop=None):
+        self.order = list(order)
+        self.drop = drop
+        self.quanta = {}
+        self.dropped = None
+
+    def _cls(self, name):
+        if name in self.order:
+            return name
+        return 'reconnect' if name.rstrip('0123456789') == 'reconnect' else name
+
+    def _prio(self, name):
+        if name == self.dropped:
+            return len(self.order) + 1
+        c = self._cls(name)
+        return self.order.index(c) + 1 if c in self.order else 0
+
+    def choose(self, enabled, default, step, labels):
+        names = [t.name for t in enabled]
+        while True:
+            best = min(self._prio(n) for n in names)
+            cand = [j for j, n in enumerate(names) if self._prio(n) == best]
+            c = default if default in cand else cand[0]
+            n = names[c]
+            if self.drop and self.dropped is None and self._cls(n) == self.drop[0]:
+                if self.quanta.get(n, 0) >= self.drop[1]:
+                    self.dropped = n
+                    continue
+                self.quanta[n] = self.quanta.get(n, 0) + 1
+            return c
+
+
+def priority_schedules(case, rng, limit, kmax=40):
+    """(order, drop) pairs for a case: all orders of its user-level threads x which class is stopped x after how many quanta;
+    a random sample of `limit` of them when there are more"""
+    import itertools
+    names = hold_targets(case) + (['reconnect', 'reconnect2'] if case.get('activate') else [])
+    orders = list(itertools.permutations(names))
+    if len(orders) > 24:
+        orders = rng.sample(orders, 24)
+    allp = [(list(o), (d, k)) for o in orders for d in names for k in range(kmax)]
+    if len(allp) > limit:
+        allp = rng.sample(allp, limit)
+    return allp
+
+
 def hold_targets(case):
     return ['c%d' % i for i in range(len(case['callers']))] + (['closer'] if case.get('closer') is not None else [])
 
@@ -79,8 +133,52 @@ def _traced_client_class(fine):
         _txthread = fakes.YAttr('_txthread', None, log_get=True)
         _rxthread = fakes.YAttr('_rxthread', None, log_get=True)
         _running = fakes.YAttr('_running', False, log_get=True)
+        _connthread = fakes.YAttr('_connthread', None, log_get=True)
+        _cancel_reconnect = fakes.YAttr('_cancel_reconnect', None, log_get=True)
     TracedClient.__name__ = 'SecopClient'
     return TracedClient
+
+
+class LogDict(dict):
+    """stand-in for `SecopClient._reconnecting` (reconnect thread -> cancel event): every access is a yield point and is
+    written to the effect log; `items()` is a snapshot (as `list(d.items())` is one step of the interpreter)"""
+
+    def __init__(self, instr, name):
+        super().__init__()
+        self.instr = instr
+        self.yname = name
+
+    def _y(self, op):
+        self.instr.s.yield_(('dict.' + op, self.yname))
+
+    def __contains__(self, k):
+        self._y('contains')
+        r = dict.__contains__(self, k)
+        self.instr.ev('r.member', getattr(k, 'name', str(k)), r)
+        return r
+
+    def __setitem__(self, k, v):
+        self._y('setitem')
+        dict.__setitem__(self, k, v)
+        self.instr.ev('r.add', getattr(k, 'name', str(k)))
+
+    def add(self, k):           # (the registry was a set before the repair)
+        self[k] = None
+
+    def discard(self, k):
+        self.pop(k, None)
+
+    def pop(self, k, *default):
+        self._y('pop')
+        r = dict.pop(self, k, *default)
+        self.instr.ev('r.pop', getattr(k, 'name', str(k)))
+        return r
+
+    def items(self):
+        self._y('items')
+        r = list(dict.items(self))
+        self.instr.ev('r.items', [getattr(k, 'name', str(k)) for k, _ in r])
+        return r
 
 
 class _Log:
@@ -125,7 +223,7 @@ def run_case(case, policy, max_steps=6000):
     with s.patched(fc, queue=fakes.LQueueModule(instr, ['txq', 'pending']), Event=fakes.levent_factory(instr),
                    RLock=fakes.llock_factory(instr, ['_lock', 'reqlock']),
                    mkthread=lambda f, *a, **k: fakes.LHandle(instr, s.mkthread(f, *a, **k)), time=s.time,
-                   current_thread=s.threading.current_thread, AsynConn=peer.connect):
+                   current_thread=lambda: fakes.LHandle(instr, s.threading.current_thread(), announce=False), AsynConn=peer.connect):
         cls = _traced_client_class(case.get('fine', False))
         client = cls('fake:1', _Log())
         client.activate = bool(case.get('activate', False))
@@ -133,6 +231,7 @@ def run_case(case, policy, max_steps=6000):
         client.cleanup = fakes.YList(instr, 'cleanup')
         if case.get('fine', False):
             client.__dict__['_instr'] = instr
+            client._reconnecting = LogDict(instr, 'reconnecting')
 
         def caller(i, c):
             if c.get('delay'):
@@ -660,6 +759,260 @@ def to_shutdown_acts(obs):
     return acts
 
 
+def to_life_acts(obs):
+    """attribute-level run -> acts of the life-cycle model (Client/Reconnect.lean): one act per entry of the effect log that
+    is a shared access of connect() / disconnect() / the workers / the reconnect threads, with the kind of access (`ev`), the
+    queue object touched (`q`) and the thread waited for (`w`); which step that is, is decided by the model.
+    The model starts after the first connect(): tx thread = 0, rx thread = 1, connection 0, queue 0."""
+    ev = obs['events']
+    try:
+        start = next(i for i, e in enumerate(ev) if e[1] == 'start')
+    except StopIteration:
+        return None
+    tid = {'txthread': 0, 'rxthread': 1}
+    nxt = [2]
+    qmap = {}
+    for e in ev[:start]:
+        if e[1] == 'q.new' and e[2] == 'txq':
+            qmap = {e[3]: 0}
+    nq = [1]
+    acts = []
+    lock = set()          # threads inside connect() (holding _lock)
+    in_cx = set()         # ... on their way through the except clause
+    skip_isset = set()
+    skip_run = set()
+    expect_gate = set()
+    expect_ident = set()
+    gates = set()
+    cancels = set()
+    rx_loop = {'rxthread'}
+    rx_io = {'rxthread': 0}
+    rx_made = set()
+    delivered = set()
+    gone = set()          # user threads whose request() has done its put: the rest is the matching model's
+    tx_hold = set()
+
+    def conn_of(v):
+        return int(v[4:]) if isinstance(v, str) and v.startswith('conn') else None
+
+    def new_thread(name):
+        tid[name] = nxt[0]
+        nxt[0] += 1
+
+    def act(th, kind, o=0, **kw):
+        a = {'a': ['th', tid[th], o], 'ev': kind}
+        a.update(kw)
+        acts.append(a)
+
+    def nextev(i, th):
+        for e in ev[i + 1:]:
+            if e[0] == th:
+                return e
+        return None
+
+    for i in range(start + 1, len(ev)):
+        e = ev[i]
+        th, kind = e[0], e[1]
+        if kind == 'call.begin':
+            acts.append({'a': ['newReq'], 'ev': '-'})
+            new_thread(th)
+            continue
+        if kind in ('close.begin', 'final.begin'):
+            acts.append({'a': ['newDisc'], 'ev': '-'})
+            new_thread(th)
+            gone.discard(th)
+            continue
+        if th not in tid or th in gone:
+            continue
+        is_rx, is_tx = th.startswith('rxthread'), th.startswith('txthread')
+        if kind == 'a.set':
+            name, v = e[2], e[3]
+            if name == '_running':
+                act(th, 'run1' if v else 'run0')
+                if v:
+                    expect_gate.add(th)
+            elif name == 'io':
+                act(th, 'set.io0' if v is None else 'set.io')
+                if v is not None:
+                    expect_ident.add(th)
+            elif name == '_txthread':
+                if v is None:
+                    act(th, 'set.tx0')
+                else:
+                    act(th, 'set.tx')
+                    new_thread(v)
+            elif name == '_rxthread':
+                if v is None:
+                    act(th, 'set.rx0')
+                    rx_loop.discard(th)
+                else:
+                    act(th, 'set.rx')
+                    new_thread(v)
+                    rx_loop.add(v)
+            elif name == '_connthread':
+                act(th, 'set.conn0' if v is None else 'set.conn')
+            elif name == '_cancel_reconnect':
+                cancels.add(v)
+                act(th, 'set.cancel')
+        elif kind == 'a.get':
+            name, v = e[2], e[3]
+            if name == '_running':
+                if th in skip_run:
+                    skip_run.discard(th)
+                else:
+                    act(th, 'get.run')
+            elif name == 'io':
+                act(th, 'get.io')
+                if is_rx:
+                    rx_io[th] = conn_of(v)
+                if th in expect_ident and v is None:
+                    expect_ident.discard(th)       # AttributeError in connect()
+                    in_cx.add(th)
+            elif name == '_txthread':
+                act(th, 'get.tx')
+            elif name == '_rxthread':
+                act(th, 'get.rx')
+            elif name == '_connthread':
+                act(th, 'get.conn')
+            elif name == '_cancel_reconnect':
+                act(th, 'get.cancel')
+        elif kind == 'ev.new':
+            if th in expect_gate:
+                expect_gate.discard(th)
+                gates.add(e[2])
+            elif is_rx:
+                rx_made.add(e[2])
+        elif kind == 'ev.set':
+            name = e[2]
+            if name == 'E0':
+                act(th, 'sdset')
+            elif name in gates:
+                act(th, 'gate')
+            elif name in cancels:
+                act(th, 'cancel')
+            elif is_rx and th in rx_loop:
+                delivered.add(name)
+        elif kind == 'ev.clear' and e[2] == 'E0':
+            act(th, 'c2')
+        elif kind == 'r.member':
+            if e[3]:
+                act(th, 'c2')
+        elif kind == 'r.add':
+            act(th, 'r.add')
+        elif kind == 'r.pop':
+            act(th, 'r.pop')
+        elif kind == 'r.items':
+            act(th, 'r.items')
+        elif kind == 'ev.isset':
+            name = e[2]
+            if name == 'E0':
+                if th in skip_isset:
+                    skip_isset.discard(th)
+                else:
+                    act(th, 'isset')
+            elif name in cancels:
+                act(th, 'isset.c')
+        elif kind == 'ev.wait':
+            name = e[2]
+            if name == 'E0':
+                if th in lock:
+                    in_cx.discard(th)
+                    act(th, 'cx', 0)
+                else:
+                    act(th, 'sdwait')
+            elif name in gates:
+                act(th, 'gwait')
+            elif th in lock:
+                ok = bool(e[3]) and name in delivered
+                act(th, 'wait', 0 if ok else 1)
+                if not ok:
+                    in_cx.add(th)
+                    if e[3]:
+                        skip_isset.add(th)      # get_reply() looks at the flag for its message
+        elif kind == 'lk.acq' and e[2] == '_lock':
+            lock.add(th)
+            act(th, 'lock')
+        elif kind == 'lk.rel' and e[2] == '_lock':
+            if th in in_cx:
+                in_cx.discard(th)
+                act(th, 'cx', 1)
+            lock.discard(th)
+            act(th, 'unlock')
+        elif kind == 'c.new':
+            act(th, 'cnew', 0 if e[2] else 1)
+            if not e[2]:
+                in_cx.add(th)
+        elif kind in ('c.read.setup', 'c.read.closed', 'c.read.fail', 'c.read.timeout', 'c.read', 'c.read.none'):
+            if th in expect_ident:
+                expect_ident.discard(th)
+                ok = kind == 'c.read.setup'
+                act(th, 'ident', 0 if ok else 1)
+                if not ok:
+                    in_cx.add(th)
+            elif is_rx:
+                if kind == 'c.read.closed':
+                    if rx_io.get(th) is not None:
+                        acts.append({'a': ['drop', rx_io[th]], 'ev': '-'})
+                    act(th, 'read', 1)
+                elif kind in ('c.read.fail', 'c.read.timeout'):
+                    act(th, 'read', 3)
+                else:
+                    n = nextev(i, th)
+                    hb = n is not None and n[1] == 'lk.acq' and n[2] == '_lock'
+                    act(th, 'read', 2 if hb else 0)
+        elif kind == 'c.shutdown':
+            act(th, 'shut')
+        elif kind == 'c.disconnect':
+            act(th, 'cdisc')
+        elif kind == 'th.join':
+            if e[2] in tid:
+                act(th, 'join', w=tid[e[2]])
+        elif kind == 'th.new':
+            if e[2].startswith('reconnect'):
+                act(th, 'thnew')
+                new_thread(e[2])
+        elif kind == 'q.new' and e[2] == 'txq':
+            qmap[e[3]] = nq[0]
+            nq[0] += 1
+            act(th, 'qnew')
+        elif kind == 'q.get.fail' and e[2] == 'pending':
+            act(th, 'pend')
+        elif kind in ('q.empty', 'q.get', 'q.get.fail', 'q.put') and e[2] == 'txq':
+            q = qmap.get(e[-1], 99)
+            if kind == 'q.empty':
+                act(th, 'qempty', q=q)
+            elif kind == 'q.get.fail':
+                act(th, 'qget', q=q)
+            elif kind == 'q.get':
+                if e[4]:
+                    parked = False
+                    for e2 in ev[i + 1:]:
+                        if e2[0] == th and e2[1] in ('q.put', 'q.get', 'a.get', 'c.send', 'c.send.lost', 'c.send.setup', 'c.send.fail'):
+                            parked = e2[1] == 'q.put' and e2[2] == 'pending'
+                            break
+                    act(th, 'qgetb', 2 if parked else 0, q=q)
+                    if e[3] is not None and not parked:
+                        tx_hold.add(th)
+                else:
+                    act(th, 'qget', q=q)
+            elif e[3] is None:
+                act(th, 'qputm', q=q)
+            elif is_rx and e[3] not in rx_made:
+                acts.append({'a': ['put', q], 'ev': '-'})       # a parked request goes back to the queue
+            else:
+                act(th, 'qput', q=q)
+                if is_rx:
+                    rx_made.discard(e[3])
+                    skip_run.add(th)
+                elif th not in lock:
+                    gone.add(th)
+        elif is_tx and th in tx_hold and (kind in ('c.send', 'c.send.lost', 'c.send.setup', 'c.send.fail')
+                                          or (kind == 'q.put' and e[2] == 'pending')):
+            tx_hold.discard(th)
+            act(th, 'proc', 1 if kind == 'c.send.fail' else 0)
+    return acts
+
+
 def _uid_of_error(out):
     import re
     m = re.search(r'u(\d+)', out.get('text', ''))
@@ -743,6 +1096,10 @@ def catalogue():
         {'name': 'activated client, peer drop, user disconnect and a request at once; what is left when all is at rest',
          'callers': [rp], 'activate': True, 'closer': {'delay': 0}, 'settle': 25,
          'peer': {'reconnect': 'accept', 'rules': [{'on': 'read m:p', 'emit': [[0, reply_line(rp, 101)]], 'drop': 0.0}]}},
+        {'name': 'activated client, two connections lost in a row (two reconnect threads), user disconnect at once; at rest',
+         'callers': [rp, rq], 'activate': True, 'closer': {'delay': 0}, 'settle': 25,
+         'peer': {'reconnect': 'accept', 'rules': [{'on': 'read m:p', 'emit': [[0, reply_line(rp, 101)]], 'drop': 0.0},
+                                                   {'on': 'read m:q', 'emit': [[0, reply_line(rq, 102)]], 'drop': 0.0}]}},
         {'name': 'activated client, a request after the peer drop (reconnect by the caller or by the reconnect thread)',
          'callers': [rp, dict(rq, delay=0.3)], 'activate': True,
          'peer': {'reconnect': 'accept', 'rules': [{'on': 'read m:p', 'emit': [[0, reply_line(rp, 101)]], 'drop': 0.0},
@@ -851,6 +1208,9 @@ def requests_for(case, obs, schedule):
         acts = to_shutdown_acts(obs)
         if acts is not None:
             reqs.append({'p': 'C11', 'k': 'shutdown_replay', 'acts': acts})
+        acts = to_life_acts(obs)
+        if acts is not None:
+            reqs.append({'p': 'C11', 'k': 'life_replay', 'acts': acts, 'activate': bool(case.get('activate', False))})
     return reqs, L
 
 
@@ -859,7 +1219,7 @@ def known_actions():
     return set(REQUEST2REPLY)
 
 
-def assess(case, schedule, obs, L, replay_ans, judge_ans, res, ctx, shut_ans=None):
+def assess(case, schedule, obs, L, replay_ans, judge_ans, res, ctx, shut_ans=None, life_ans=None):
     """compare model and implementation, classify what the Lean monitors report; returns list of (sig, what)"""
     out = []
     if 'driver_error' in replay_ans or 'driver_error' in judge_ans or (shut_ans is not None and 'driver_error' in shut_ans):
@@ -872,6 +1232,22 @@ def assess(case, schedule, obs, L, replay_ans, judge_ans, res, ctx, shut_ans=Non
                          ('shutdown model: after act %d the thread is at %s, the implementation at %s'
                           % (k, shut_ans.get('got'), shut_ans.get('want'))),
                 'impl': {'state': shut_ans['final']}, 'case': {'case': case, 'schedule': schedule}})
+    if life_ans is not None and 'driver_error' in life_ans:
+        raise RuntimeError(f'driver error: {life_ans}')
+    if life_ans is not None and (ctx is None or ctx.model_ok):
+        k = life_ans['refused_at'] if life_ans['refused_at'] is not None else life_ans['mismatch_at']
+        acts = to_life_acts(obs) if k is not None else None
+        if k is not None and life_ans.get('at') in ('c12', 'c13') and acts[k]['ev'] == 'get.io' and life_ans['refused_at'] is not None:
+            # a connect() nested in connect() (queue_request of the set-up requests finds self.io gone): not covered by the model,
+            # the replay ends here (the run is still judged by the monitors)
+            if hasattr(res, 'count'):
+                res.count('life-cycle-replays-ended-at-a-nested-connect')
+        elif k is not None:
+            res.disagreements.append({
+                'model': 'life-cycle model: the acting thread is at %s, which does not produce event %d: %s'
+                         % (life_ans.get('at'), k, acts[k]),
+                'impl': {'events before': [(a['a'], a['ev']) for a in acts[max(0, k - 6):k]], 'state': life_ans['final']},
+                'case': {'case': case, 'schedule': schedule}})
     # ---- correspondence
     if ctx is None or ctx.model_ok:
         dis = None
@@ -881,7 +1257,10 @@ def assess(case, schedule, obs, L, replay_ans, judge_ans, res, ctx, shut_ans=Non
         else:
             fin = replay_ans['final']
             ids = L['ids']
-            reconnected = any(e[1] == 'c.new' for e in obs['events'][1:] if e[0] != 'main')
+            # (a connect() body that ran - even without an attempt: the flag was set - has replaced the queues)
+            i0 = next((i for i, e in enumerate(obs['events']) if e[1] == 'start'), 0)
+            reconnected = (any(e[1] == 'c.new' for e in obs['events'][1:] if e[0] != 'main')
+                           or any(e[1] == 'q.new' for e in obs['events'][i0:]))
             impl = obs['impl_final']
             if not reconnected and 'error' not in impl:
                 im = {'active': sorted(ids.get(x, -1) for x in impl['active']),
@@ -963,7 +1342,8 @@ def fails_with(case, schedule, sig, driver):
 
     class _R:
         disagreements = []
-    return any(s == sig for s, _ in assess(case, schedule, obs, L, a[0], a[1], _R(), None, a[2] if len(a) > 2 else None))
+    return any(s == sig for s, _ in assess(case, schedule, obs, L, a[0], a[1], _R(), None, a[2] if len(a) > 2 else None,
+                                           a[3] if len(a) > 3 else None))
 
 
 def shrink(case, schedule, sig, driver):
@@ -1027,8 +1407,8 @@ def conn_sig(events, k):
 
 
 def conn_stream(ctx, res):
-    scripts = [list(x) for x in CONN_CATALOGUE] + [gen_conn_script(ctx.rng) for _ in range(ctx.budget(40, 500))]
-    nfake = len(CONN_CATALOGUE) + ctx.budget(25, 300)
+    scripts = [list(x) for x in CONN_CATALOGUE] + [gen_conn_script(ctx.rng) for _ in range(ctx.budget(40, 300))]
+    nfake = len(CONN_CATALOGUE) + ctx.budget(25, 200)
     cases = [('tcp', sc) for sc in scripts] + [('fake', sc) for sc in scripts[:nfake]]
     runs = [(impl, sc, run_conn(impl, sc)) for impl, sc in cases]
     answers = ctx.driver.batch([{'p': 'C11', 'k': 'conn', 'events': ev} for _, _, ev in runs])
@@ -1104,7 +1484,7 @@ def e2e_assess(obs, a):
 
 
 META = {
-    'level_text': 'Four models of the repaired SecopClient, theorems for all reachable states (any number of callers, requests, '
+    'level_text': 'Five models of the repaired SecopClient, theorems for all reachable states (any number of callers, requests, '
                   'lines, any interleaving, disconnects at any point).  (1) matching LTS, one action per shared access of caller, '
                   'tx, rx and disconnecting threads: reply_matches_partial (known actions), no_double_delivery, no_parking, '
                   'no_lost_request (every queued request is still in the machinery or its caller is answered / released / timed out; '
@@ -1117,22 +1497,36 @@ META = {
                   'shutdown_terminates (deadlock-freedom after any shutdown request: user, peer, failing send, or several).  '
                   '(4) connection object (one TCP endpoint: peer lines / FIN / RST, client readline / send / shutdown / disconnect): '
                   'conn_contract (shutdown and disconnect never raise, readline raises nothing but ConnectionClosed and does so '
-                  'on a dead connection, only lines the peer sent are returned).  Counter-traces: reply_matches_fails (F21, '
-                  'recorded), reply_fresh_fails, no_parking_unlocked_fails (the client before the repair).  Models (1) and (3) are '
-                  'replayed against every run of the real client under a deterministic scheduler, model (4) against real AsynTcp '
-                  'objects on loopback sockets and against the scripted FakeConn; the Lean monitors judge every run.',
+                  'on a dead connection, only lines the peer sent are returned).  (5) life cycle across connections (threads as '
+                  'records: user disconnect()/request(), tx/rx workers behind their start gate, reconnect threads with cancel events '
+                  'and registry; connect() with _lock, queue replacement, _shutdown.clear(), AsynConn accepted/refused, registration '
+                  'of the workers; disconnect(shutdown) with its locals; one step per shared access, ~110 program points): '
+                  'shutdown_final_partial (in every reachable state, while the shutdown request of a returned user disconnect() '
+                  'stands - flag not cleared since - self.io is None and no thread is past the test of the flag inside connect(): '
+                  'not connected, and nobody can connect until a user asks), reconnect_never_revokes (a reconnect thread never clears '
+                  'the flag).  Counter-traces: reply_matches_fails (F21, recorded), reply_fresh_fails, no_parking_unlocked_fails, '
+                  'and on model (5) with the code before the repairs: marker_eaten_hangs (disconnect() waits for ever in '
+                  'txthread.join(): proved for every continuation without a fault of the environment), '
+                  'older_reconnect_connects_after_shutdown, no_worker_in_loop_fails.  Models (1), (3) and (5) are replayed '
+                  'against every (attribute-level) run of the real client under a deterministic scheduler, model (4) against real '
+                  'AsynTcp objects on loopback sockets and against the scripted FakeConn; the Lean monitors judge every run.',
     'level_note': 'Trusted: Lean kernel + propext/Classical.choice/Quot.sound; queue.Queue / Event / RLock / join semantics are '
                   'those of vlib.sched (modelled, not verified); sections under the request lock are atomic in the model; the '
                   'conversion of the effect log to labels (harness) and the JSON glue.  Model (2) is tied to the source by '
-                  'reading (anchored comments) and by the generated constants, not by replay; connect(), the reconnect threads, '
-                  'the cancel event and the start gate of the workers are outside all models and are covered by schedule '
-                  'exploration (catalogue scenarios with a node that accepts connections again, systematic + long-preemption '
-                  'schedules) and by the monitors ShutdownClean / ShutdownFinal only.  Model (4) is tied to AsynTcp on the '
-                  'loopback interface of this kernel; AsynSerial is not covered.',
+                  'reading (anchored comments) and by the generated constants, not by replay.  For model (5) the liveness half of '
+                  'the shutdown clauses (disconnect() terminates, the worker threads run out) is NOT proved - only the safety half '
+                  'above, the single-connection shutdown_terminates of model (3), two evaluated schedules, and the exploration '
+                  '(catalogue scenarios with a node that accepts connections again; systematic, long-preemption and priority '
+                  'schedules) with the monitors ShutdownClean / ShutdownFinal; a connect() nested in connect() and time are not in '
+                  'model (5).  Model (4) is tied to AsynTcp on the loopback interface of this kernel; AsynSerial is not covered.',
     'trusted': [
         'vlib.sched primitives behave like threading/queue (one thread runs at a time, yield before every primitive)',
         'code executed under SecopClient._request_lock is atomic with respect to the other sections under that lock',
         'the effect-log -> label conversion in harness/props/c11.py (checked by the replay: every label must be enabled)',
+        'life-cycle model: every shared access of connect()/disconnect()/the workers/the reconnect threads is a yield point or a '
+        'logged effect of the attribute-level runs (attributes io, _txthread, _rxthread, _running, _connthread, _cancel_reconnect, the '
+        'registry, queues, events, locks, joins); reads of self.txq / self.pending are not yield points (the queue object used is '
+        'checked by its number); list(dict.items()) and dict item assignment are single steps',
         'fewer than 30 requests are queued or parked at any time in the untimed model (the timed layer models the bound)',
         'timed layer: a caller whose put/wait time-out expired takes its step before the clock moves on (tick is not enabled past a blocked caller\'s deadline)',
         'connection model: loopback TCP of the test machine stands for TCP (a peer action is given 30 ms to reach the client; the outcome sets are loose where the kernel is free)',
@@ -1143,7 +1537,7 @@ META = {
         'AsynTcp (Client/Conn.lean; replayed on loopback sockets) and its stand-in FakeConn (replayed on the same model; its '
         'silent-loss mode send_error=false is an additional adversary outside that model)',
         'decode_msg / encode_msg_frame, the cache update of update-class messages, callbacks',
-        'connect() / _reconnect / the cancel event / the start gate of the workers (exercised by the harness, not part of any model)',
+        'a connect() nested in connect() (the set-up request finds self.io gone): the life-cycle replay ends there',
         'timed layer: transcribed from the source, not replayed against runs',
     ],
     'assumptions': ['request identifiers are not "." (the rx thread maps "." to None)',
@@ -1195,8 +1589,12 @@ def run(ctx):
             res.traces += 1
             if nreq > 2:
                 res.count('shutdown-model-replays')
+            if nreq > 3:
+                res.count('life-cycle-model-replays')
+                if any(e[1] == 'c.new' for e in obs['events'] if e[0] != 'main'):
+                    res.count('life-cycle-model-replays-with-reconnection')
             found = assess(case, schedule, obs, L, answers[off], answers[off + 1], res, ctx,
-                           answers[off + 2] if nreq > 2 else None)
+                           answers[off + 2] if nreq > 2 else None, answers[off + 3] if nreq > 3 else None)
             kinds = sorted({c['out'] for c in L['callers']})
             labs = [lb[0] for lb in L['labels']]
             res.count('outcomes=' + '+'.join(kinds))
@@ -1236,7 +1634,7 @@ def run(ctx):
             c = json.load(open(os.path.join(cdir, fn)))
             do(c['case'], vsched.ReplayThenDefault(c['schedule']))
     # ---------- the catalogue, systematically ----------
-    per_case = ctx.budget(160, 1500)
+    per_case = ctx.budget(150, 900)
     for case in catalogue():
         res.count('catalogue-scenarios')
         case = {k: v for k, v in case.items() if k != 'name'}
@@ -1248,8 +1646,15 @@ def run(ctx):
             for k in range(ctx.budget(10, 40)):
                 res.count('hold-schedules')
                 do(case, HoldPolicy(name, k))
+        if case.get('activate') and case.get('settle'):
+            # whole activities ordered one after the other, one thread stopped half way (reconnect threads against a user shutdown)
+            for order, drop in priority_schedules(case, rng, ctx.budget(100, 3000), 16):
+                res.count('priority-schedules')
+                do(case, PriorityPolicy(order, drop))
+                if len(runs) >= 3000:
+                    flush()
     # ---------- generated cases: a few systematic schedules, then random ones ----------
-    for _ in range(ctx.budget(160, 1000)):
+    for _ in range(ctx.budget(150, 550)):
         case = gen_case(rng, big)
         for prefix, obs in explore_case(case, 1 if not big else 2, ctx.budget(6, 30), rng):
             runs.append((case, effective_schedule(obs), obs))
@@ -1303,7 +1708,9 @@ def replay(ctx, rp):
     res = Result()
     if len(a) > 2:
         print('shutdown:', a[2])
-    found = assess(case, schedule, obs, L, a[0], a[1], res, ctx, a[2] if len(a) > 2 else None)
+    if len(a) > 3:
+        print('life    :', a[3])
+    found = assess(case, schedule, obs, L, a[0], a[1], res, ctx, a[2] if len(a) > 2 else None, a[3] if len(a) > 3 else None)
     for sig, what in found:
         print('fails   :', sig, '-', what)
     for d in res.disagreements:
